@@ -10,7 +10,9 @@ AUDIT = "OxyModel/Audit/C20.lean"
 THEOREMS = ["C20.C20_expectBody_false_iff", "C20.C20_buffer_drops_body_kinds", "C20.C20_retry_stateful_link",
             "C20.C20_transparent", "C20.C20_decorate_only_cookies", "C20.C20_decisive_at", "C20.C20_decisive",
             "C20.C20_status_table", "C20.C20_response_limit", "C20.C20_abort_restores", "C20.C20_abort_state",
-            "C20.C20_failed_hijack_relayed", "C20.C20_info_implicit_final_counterexample", "C20.C20_retry_documented"]
+            "C20.C20_failed_hijack_relayed", "C20.C20_info_implicit_final_counterexample", "C20.C20_retry_documented",
+            "C20.C20_link_connlimit", "C20.C20_link_ratelimit", "C20.C20_link_breaker", "C20.C20_link_balancer",
+            "C20.C20_link_buffer", "C20.C20_link_decision", "C20.C20_transparent_composed", "C20.C20_decisive_composed"]
 RACE = False
 JOBS = 12
 BATCH_TIMEOUT = 600
@@ -23,7 +25,7 @@ RULE = ("scenario = one real stack (stream/trace/connlimit/ratelimit/cbreaker/ro
         "non-trivial = depth >= 2 and (a layer intervenes, or the handler flushes or hijacks)")
 ASSUMPTIONS = [
     "net/http's own response writing, chunking, Content-Type sniffing of the error bodies and Hijack/Flush of *http.response are stdlib behaviour: exercised by every scenario (depth-0 stacks are the bare handler), not proved",
-    "the per-layer decision whether to intervene is an input of the stack model (tripped / maxReq vs body length); that the decision itself follows the limits is C03/C04/C05/C02/C15",
+    "the per-layer decision whether to intervene is one number / flag in the stack model (Stack.eff, tripped, maxReq vs body length); the link theorems C20_link_* prove that it is the decision of the per-layer models of C04 / C03-C13 / C05 / C01-C02 / C15 (abstraction functions commuting with acquire/release, consumeRates at a frozen instant with amount 1, activateFallback, NextServer, checkLimit), within: unit extractor amounts, a frozen clock for the rate limiter, breaker states outside the recovery ramp (standby, or tripped with the fallback period running), requests without sticky cookie",
     "a handler leaving by panic(http.ErrAbortHandler): what the client sees of that exchange is not compared (canonicalised as `aborted`), only that the handler ran once and what later requests get",
     "handlers that send 1xx informational responses also set their final status explicitly: outside this domain the unchanged code is NOT transparent (Buffer drops the body, theorem C20_info_implicit_final_counterexample) and the generator stays inside it",
     "a Buffer swallows 1xx responses and Flush by design; a front writer without Hijack/Flush (cfg front=) cannot be given these capabilities by the stack: the monitor demands them only where the front offers them",
@@ -547,7 +549,10 @@ MANIFEST = {
              "stack (any order, depth, repetition; any handler script). The model Stack.serveStack is tied to the code by running real stacks of the "
              "real middlewares behind a real HTTP server (thorough: all ordered subsets of depth <= 4) against the compiled model."),
     "note": ("Partial: (1) the byte-level relay -- net/http's response writing, Flush and Hijack are exercised on every scenario, not proved; (2) each "
-             "layer's decision to intervene is an input of the model (proved per layer under C02-C05/C15); (3) C20_transparent holds on explicit "
+             "layer's decision to intervene is one number / flag of the model, linked to the per-layer models of C01-C05/C13/C15 by C20_link_connlimit, "
+             "C20_link_ratelimit, C20_link_breaker, C20_link_balancer, C20_link_buffer (summarised by C20_link_decision; C20_transparent_composed and "
+             "C20_decisive_composed state transparency / decisiveness in terms of those models' own decisions), for unit amounts, a frozen instant and "
+             "breaker states outside the recovery ramp; (3) C20_transparent holds on explicit "
              "domains: infoDomain (1xx only with an explicit final status behind a Buffer -- outside it the code drops the body: open known finding "
              "buffer_1xx_implicit_final, C20_info_implicit_final_counterexample) and bodyDomain (responses Buffer.expectBody keeps; the others lose "
              "their body by documented design); (4) C20_abort_restores assumes no retrying buffer and >= 2 rate tokens, C20_retry_stateful_link no rate "
